@@ -12,9 +12,13 @@ Python function, and `NumpyParams.v` proves `np_<function> = <model>` once and f
       (with get_spread_prob, get_micro_mod)                     (as_dict=True)
   graph.Edge.set_params           -> gen_edge_set_params      = Params.edge_set_params
       (with get_spread_prob, get_micro_mod, set_spread_prob, set_micro_mod)
-  utils.set_params_for            -> gen_set_params_for       generic in the objects; for the dict of a graph's edges
-                                                                = Params.set_edges_for ... sel_all
-  utils.get_params_from + flatten -> gen_get_params_from      for the dict of a graph's edges = Params.edges_get_params
+  utils.set_params_for            -> gen_set_params_for       generic in the class of the objects; for the dict of a
+                                                                graph's edges = Params.set_edges_for ... sel_all
+                                                                (and = Params.graph_set_params)
+  utils.flatten                   -> gen_flatten              a Fixpoint on a recursion bound `fuel`;
+                                                                = Params.flatten on dicts nested one level deep, fuel >= 2
+  utils.get_params_from (+ flatten)-> gen_get_params_from     generic; for the dict of a graph's edges (state unchanged)
+                                                                = Params.edges_get_params, fuel >= 2
 
 Fail-closed: every statement / expression form that is not listed below raises `Untranslatable`.
 
@@ -53,11 +57,23 @@ What the translator itself ASSUMES (trusted reading; the conventions are those o
  * `if not LO <= x <= HI: raise ...` on a user value x is `match check_range LO HI x with None => raise | Some x => ...`
    (NaN / inf fail the chained comparison; afterwards x is a number); `raise ValueError(...)` is `None`;
    `warnings.warn(...)` (and an `if` with a side-effect-free test that only warns) is dropped; `as_dict` is True,
-   `as_flat` is the argument of the lemma; `popfirst` imported from lymph.utils is Params.popfirst (piece `popfirst`),
-   `unflatten_and_split` / `flatten` called inside utils are the model functions (pieces `unflatten_and_split`; flatten is
-   not translated, it is the model's `flatten`).
- * `obj.set_params(*args, **obj_kwargs)` / `obj.get_params(as_flat=as_flat)` on the values of `objects` are calls of an
-   abstract method of the generic translation (a function parameter), instantiated with the Edge methods in the lemmas.
+   `as_flat` is the argument of the lemma; `popfirst` imported from lymph.utils is Params.popfirst (piece `popfirst`) and
+   `unflatten_and_split` called inside utils.set_params_for is Params.unflatten_and_split (piece `unflatten_and_split`).
+ * generic functions over `objects: dict[str, obj]`: `objects` is an association list name -> object that is threaded through
+   the statements like `self_`; `objects.keys()` is `map fst objects`;
+       for KEY, OBJ in objects.items(): BODY
+   where BODY only calls methods of OBJ, rebinds ONE variable defined before the loop and may raise, is
+   `py_for_items (fun key obj carried => BODY) objects carried` (NumpyParams.py_for_items: objects are replaced in place, an
+   exception stops the loop and leaves the remaining objects untouched).  `obj.set_params(*args, **obj_kwargs)` and
+   `obj.get_params(as_flat=as_flat)` are calls of an ABSTRACT method (a function parameter `set_params_` / `get_params_` of
+   type obj -> ... -> obj * option result); the lemmas instantiate it with the model of the Edge method, which the pieces
+   `edge_set_params` / `edge_get_params` tie to the source.  `D.update(SRC)` is accepted only for a D bound by `X.copy()`.
+ * utils.flatten: keys are paths, so `f"{parent_key}{sep}{k}"` is `parent_key ++ k` and `if parent_key` is `path_nonempty`;
+   `isinstance(v, dict)` is the case distinction Node / Leaf of a `ptree` (in the `else` branch v is a number);
+   `items.extend(D.items())` / `items.append((k, v))` append to a list of items, `dict(items)` is `dict_of`.  Python's
+   recursion on the nesting becomes a Fixpoint on an extra argument `fuel` (every call consumes one unit; `flatten(params)`
+   in get_params_from passes the `fuel` parameter of the generated function, `parent_key=""` is the empty path); the lemmas
+   hold for every fuel >= 2 and dicts nested one level deep (`depth1`: what get_params_from builds from flat dicts).
 """
 from __future__ import annotations
 
@@ -327,8 +343,6 @@ def translate_unflatten_and_split() -> str:
     if not ok:
         raise Untranslatable("loop is not `for K, V in mapping.items()`")
     k, v = (x.id for x in loop.target.elts)
-    if set(_assigned(loop.body)) - set(accs) - {k, v} - set(_assigned([])) and False:
-        raise Untranslatable("unexpected assignment")
     d = Dicts({"mapping": KWARGS, "expected_keys": NAMES, "sep": "sep", accs[0]: EMPTY, accs[1]: EMPTY, k: PATH, v: VAL}, st)
     tup = f"({g(accs[0])}, {g(accs[1])})"
     body = d.block(list(loop.body), tup)
@@ -384,6 +398,7 @@ class Meth:
         self.obj = obj                    # (loop body) python name of the object whose abstract methods may be called
         self.objects = objects            # (generic functions) python name of the dict of objects = the threaded state
         self.const_funcs = set()          # module-level functions of lymph.utils read as the model's function of that name
+        self.owned = set()                # local dicts that are fresh copies (only those may be updated in place)
         self.n = 0
 
     def fresh(self) -> str:
@@ -416,7 +431,7 @@ class Meth:
             t, ty = self.pure(e.args[0])
             if ty != PDICT:
                 raise Untranslatable(f"flatten of a {ty}")
-            return (f"(flatten {t})", PDICT)
+            return (f"(gen_flatten fuel {t} [])", PDICT)    # parent_key="" is the empty path, sep its default
         if self.obj is not None and isinstance(e, ast.Call) and (_attr_chain(e.func) or [None])[0] == self.obj:
             raise NotPure
         ch = _attr_chain(e)
@@ -618,6 +633,8 @@ class Meth:
         if (isinstance(s, ast.Expr) and isinstance(s.value, ast.Call) and isinstance(s.value.func, ast.Attribute)
                 and s.value.func.attr == "update" and isinstance(s.value.func.value, ast.Name)
                 and self.env.get(s.value.func.value.id) == KWARGS and len(s.value.args) == 1 and not s.value.keywords):
+            if s.value.func.value.id not in self.owned:
+                raise Untranslatable(f"{s.value.func.value.id}.update(...): the dict may be shared (it is not a fresh copy)")
             d = g(s.value.func.value.id)
             t, ty = self.pure(s.value.args[0])
             if ty != KWARGS:
@@ -676,8 +693,12 @@ class Meth:
                 return go(0)
             # NAME = E
             if isinstance(tg, ast.Name):
+                fresh_copy = (isinstance(v, ast.Call) and isinstance(v.func, ast.Attribute) and v.func.attr == "copy"
+                              and not v.args and not v.keywords)
+
                 def cont(ty):
                     self.env[tg.id] = ty
+                    (self.owned.add if fresh_copy else self.owned.discard)(tg.id)
                     return self.block(rest, fall)
                 return self.bind(v, g(tg.id), cont)
             # NAME["k"] = E  |  NAME[KEY] = E with KEY a name (one path component)
@@ -843,6 +864,116 @@ def translate_set_params_for() -> str:
             "Proof. intros g a kw. rewrite gen_set_params_for_np. apply np_set_params_for_graph. Qed.\n")
 
 
+def _flatten_def(tree) -> str:
+    """utils.flatten as a Fixpoint on a recursion bound `fuel`:
+         ITEMS = []
+         for K, V in mapping.items():
+             NK = f"{parent_key}{sep}{K}" if parent_key else K        (any assignments of path expressions)
+             if isinstance(V, dict): ITEMS.extend(flatten(V, NK, sep=sep).items())
+             else: ITEMS.append((NK, V))
+         return dict(ITEMS)"""
+    fn = _func(tree, "flatten")
+    _params(fn, ["mapping", "parent_key", "sep"], ["", "_"])
+    st = _strip_doc(fn.body)
+    if len(st) != 3:
+        raise Untranslatable(f"flatten: {len(st)} statements")
+    init, loop, ret = st
+    if not (isinstance(init, ast.Assign) and len(init.targets) == 1 and isinstance(init.targets[0], ast.Name)
+            and isinstance(init.value, ast.List) and not init.value.elts):
+        raise Untranslatable("flatten: first statement is not `ITEMS = []`")
+    items = init.targets[0].id
+    ok = (isinstance(loop, ast.For) and not loop.orelse and isinstance(loop.target, ast.Tuple) and len(loop.target.elts) == 2
+          and all(isinstance(x, ast.Name) for x in loop.target.elts) and isinstance(loop.iter, ast.Call)
+          and not loop.iter.args and not loop.iter.keywords and _attr_chain(loop.iter.func) == ["mapping", "items"])
+    if not ok:
+        raise Untranslatable("flatten: loop is not `for K, V in mapping.items()`")
+    k, v = (x.id for x in loop.target.elts)
+    if len({items, k, v, "mapping", "parent_key", "sep"}) != 6:
+        raise Untranslatable("flatten: variable names clash")
+    ok = (isinstance(ret, ast.Return) and isinstance(ret.value, ast.Call) and isinstance(ret.value.func, ast.Name)
+          and ret.value.func.id == "dict" and len(ret.value.args) == 1 and not ret.value.keywords
+          and isinstance(ret.value.args[0], ast.Name) and ret.value.args[0].id == items)
+    if not ok:
+        raise Untranslatable("flatten: last statement is not `return dict(ITEMS)`")
+    TREE = "ptree"
+
+    def path(e, env) -> str:
+        if isinstance(e, ast.Name) and env.get(e.id) == PATH:
+            return g(e.id)
+        if (isinstance(e, ast.JoinedStr) and len(e.values) == 3
+                and all(isinstance(x, ast.FormattedValue) and x.conversion == -1 and x.format_spec is None for x in e.values)
+                and isinstance(e.values[1].value, ast.Name) and e.values[1].value.id == "sep"):
+            return f"({path(e.values[0].value, env)} ++ {path(e.values[2].value, env)})"
+        if isinstance(e, ast.IfExp) and isinstance(e.test, ast.Name) and env.get(e.test.id) == PATH:
+            return f"(if path_nonempty {g(e.test.id)} then {path(e.body, env)} else {path(e.orelse, env)})"
+        raise Untranslatable(f"flatten: key expression {ast.dump(e)[:160]}")
+
+    def method_on_items(s, attr):
+        if (isinstance(s, ast.Expr) and isinstance(s.value, ast.Call) and _attr_chain(s.value.func) == [items, attr]
+                and len(s.value.args) == 1 and not s.value.keywords):
+            return s.value.args[0]
+        return None
+
+    def block(stmts, env) -> str:
+        if not stmts:
+            return g(items)
+        s, rest = stmts[0], stmts[1:]
+        if isinstance(s, ast.Assign) and len(s.targets) == 1 and isinstance(s.targets[0], ast.Name) \
+                and s.targets[0].id not in (items, k, v, "mapping", "parent_key", "sep"):
+            t = path(s.value, env)
+            return f"let {g(s.targets[0].id)} := {t} in\n        {block(rest, {**env, s.targets[0].id: PATH})}"
+        if (isinstance(s, ast.If) and s.orelse and isinstance(s.test, ast.Call) and isinstance(s.test.func, ast.Name)
+                and s.test.func.id == "isinstance" and len(s.test.args) == 2 and not s.test.keywords
+                and isinstance(s.test.args[0], ast.Name) and env.get(s.test.args[0].id) == TREE
+                and isinstance(s.test.args[1], ast.Name) and s.test.args[1].id == "dict"):
+            x = s.test.args[0].id
+            a = block(list(s.body) + rest, {**env, x: PDICT})
+            b = block(list(s.orelse) + rest, {**env, x: QC})
+            return f"match {g(x)} with\n        | Node {g(x)} => {a}\n        | Leaf {g(x)} => {b}\n        end"
+        arg = method_on_items(s, "extend")
+        if arg is not None:
+            # ITEMS.extend(flatten(D, P, sep=sep).items())
+            ok = (isinstance(arg, ast.Call) and not arg.args and not arg.keywords and isinstance(arg.func, ast.Attribute)
+                  and arg.func.attr == "items" and isinstance(arg.func.value, ast.Call)
+                  and isinstance(arg.func.value.func, ast.Name) and arg.func.value.func.id == "flatten")
+            if not ok:
+                raise Untranslatable("flatten: extend with something else than flatten(...).items()")
+            c = arg.func.value
+            ok = (len(c.args) == 2 and isinstance(c.args[0], ast.Name) and env.get(c.args[0].id) == PDICT
+                  and len(c.keywords) == 1 and c.keywords[0].arg == "sep" and isinstance(c.keywords[0].value, ast.Name)
+                  and c.keywords[0].value.id == "sep")
+            if not ok:
+                raise Untranslatable("flatten: recursive call is not flatten(<dict>, <key>, sep=sep)")
+            return (f"let {g(items)} := {g(items)} ++ gen_flatten fuel {g(c.args[0].id)} {path(c.args[1], env)} in\n        "
+                    f"{block(rest, env)}")
+        arg = method_on_items(s, "append")
+        if arg is not None:
+            ok = (isinstance(arg, ast.Tuple) and len(arg.elts) == 2 and isinstance(arg.elts[1], ast.Name)
+                  and env.get(arg.elts[1].id) == QC)
+            if not ok:
+                raise Untranslatable("flatten: append of something else than (<key>, <number>)")
+            return (f"let {g(items)} := {g(items)} ++ [({path(arg.elts[0], env)}, Leaf {g(arg.elts[1].id)})] in\n        "
+                    f"{block(rest, env)}")
+        raise Untranslatable(f"flatten: statement {ast.dump(s)[:160]}")
+
+    body = block(list(loop.body), {"parent_key": PATH, k: PATH, v: TREE})
+    return ("Fixpoint gen_flatten (fuel : nat) (mapping_ : pdict) (parent_key_ : path) : pdict :=\n"
+            "  match fuel with\n  | O => []\n  | S fuel =>\n"
+            f"      let {g(items)} := ([] : pdict) in\n"
+            f"      let {g(items)} :=\n"
+            f"        fold_left (fun ({g(items)} : pdict) '(({g(k)}, {g(v)}) : path * ptree) =>\n        {body})\n"
+            f"          mapping_ {g(items)} in\n"
+            f"      dict_of {g(items)}\n  end.\n"
+            "Lemma gen_flatten_np : forall fuel d p, gen_flatten fuel d p = np_flatten fuel d p.\n"
+            "Proof. intros. reflexivity. Qed.\n")
+
+
+def translate_flatten() -> str:
+    return (_flatten_def(_utils_tree("flatten"))
+            + "Lemma gen_flatten_eq : forall fuel d, depth1 d -> gen_flatten (S (S fuel)) d [] = flatten d.\n"
+              "Proof. intros fuel d H. rewrite gen_flatten_np. apply np_flatten_depth1. exact H. Qed.\n")
+
+
 def translate_get_params_from() -> str:
     tree = _utils_tree("flatten", "get_params_from")
     fn = _func(tree, "get_params_from")
@@ -850,16 +981,17 @@ def translate_get_params_from() -> str:
     m = Meth({"as_flat": BOOL}, PDICT, state="objects", const={"as_dict": "true"}, objects="objects")
     m.const_funcs = {"flatten"}
     body = m.block(_strip_doc(fn.body), None)
-    return ("Definition gen_get_params_from {O} (get_params_ : O -> bool -> O * option pdict)\n"
+    return (_flatten_def(tree)
+            + "Definition gen_get_params_from {O} (fuel : nat) (get_params_ : O -> bool -> O * option pdict)\n"
             "    (objects_ : list (string * O)) (as_flat_ : bool) : list (string * O) * option pdict :=\n  "
             + body + ".\n"
-            "Lemma gen_get_params_from_np : forall O (gp : O -> bool -> O * option pdict) objs fl,\n"
-            "  gen_get_params_from gp objs fl = np_get_params_from gp objs fl.\n"
+            "Lemma gen_get_params_from_np : forall O fuel (gp : O -> bool -> O * option pdict) objs fl,\n"
+            "  gen_get_params_from fuel gp objs fl = np_get_params_from fuel gp objs fl.\n"
             "Proof. intros. reflexivity. Qed.\n"
-            "Lemma gen_get_params_from_eq : forall tri (gp : edge -> bool -> edge * option pdict) es fl,\n"
+            "Lemma gen_get_params_from_eq : forall tri fuel (gp : edge -> bool -> edge * option pdict) es fl,\n"
             "  (forall e fl', In e es -> gp e fl' = (e, Some (edge_get_params tri e))) ->\n"
-            "  gen_get_params_from gp (edge_objects es) fl = (edge_objects es, Some (edges_get_params tri es fl)).\n"
-            "Proof. intros tri gp es fl H. rewrite gen_get_params_from_np. apply np_get_params_from_edges. exact H. Qed.\n")
+            "  gen_get_params_from (S (S fuel)) gp (edge_objects es) fl = (edge_objects es, Some (edges_get_params tri es fl)).\n"
+            "Proof. intros tri fuel gp es fl H. rewrite gen_get_params_from_np. apply np_get_params_from_edges. exact H. Qed.\n")
 
 
 HEADER = ("(* GENERATED on every run by harness/translate5.py from the Python source of lymph; do not edit *)\n"
@@ -874,7 +1006,8 @@ PIECES = {
     "edge_set_params": (translate_edge_set_params, "gen_edge_set_params_eq",
                         "lymph/graph.py Edge.set_params (set_spread_prob, set_micro_mod, get_spread_prob, get_micro_mod)"),
     "set_params_for": (translate_set_params_for, "gen_set_params_for_eq", "lymph/utils.py set_params_for"),
-    "get_params_from": (translate_get_params_from, "gen_get_params_from_eq", "lymph/utils.py get_params_from"),
+    "flatten": (translate_flatten, "gen_flatten_eq", "lymph/utils.py flatten (dicts nested one level deep)"),
+    "get_params_from": (translate_get_params_from, "gen_get_params_from_eq", "lymph/utils.py get_params_from (with flatten)"),
 }
 
 
